@@ -121,7 +121,11 @@ impl SmartCalc {
             session.set_text(type_parse_item.borrow().to_string());
             
             let tokens = Tokinizer::token_infos(&self.config, &session);
-            parse_tokens.push(tokens);
+
+            /* A pattern without tokens can never match */
+            if !tokens.is_empty() {
+                parse_tokens.push(tokens);
+            }
         }
         
         if let Some(dynamic_type) = self.config.types.get_mut(name.borrow()) {            
@@ -260,7 +264,11 @@ impl SmartCalc {
             session.set_language(language.to_string());
             session.set_text(rule_item.to_string());
             let tokens = Tokinizer::token_infos(&self.config, &session);
-            rule_tokens.push(tokens);
+
+            /* A pattern without tokens can never match */
+            if !tokens.is_empty() {
+                rule_tokens.push(tokens);
+            }
         }
         
         let language_data = match self.config.rule.get_mut(&language) {
